@@ -147,7 +147,7 @@ func (m *Module) enableInlining() {
 		if (token.IsExported(h.Name()) && !methodOfPrivateType(h)) || h.Name() == "init" || h.Name() == "main" {
 			continue
 		}
-		if h.Recover != nil || len(h.FreeVars) > 0 {
+		if len(h.FreeVars) > 0 {
 			continue
 		}
 		hasDefer := false
@@ -159,7 +159,8 @@ func (m *Module) enableInlining() {
 				}
 			}
 		}
-		if hasDefer || recursive(h, h, map[*ssa.Function]bool{}) {
+		_ = hasDefer // (deferred calls of a spliced helper are modelled where its RunDefers run)
+		if recursive(h, h, map[*ssa.Function]bool{}) {
 			continue
 		}
 		call := sites[h][0]
